@@ -329,4 +329,14 @@ def r7_thread_confinement(ctx):
             ctx.ok("C07.R7", loc(fi), f"{name} (thread pool) writes no DataServer field")
 
 
-RULES = [r1_send_payload, r2_store_payload, r3_r5_recv_loop, r6_key_function, r7_thread_confinement, r4_r5_listener, r6_frames]
+from .shm import r_reader_ids  # noqa: E402
+
+
+def r_command_index(ctx):
+    """every fetch / transmit command carries a fresh index (rule C01.R5, imported lazily): the data server keys its confirmations by it"""
+    from .C01 import r5_commands
+
+    r5_commands(ctx)
+
+
+RULES = [r_reader_ids, r_command_index, r1_send_payload, r2_store_payload, r3_r5_recv_loop, r6_key_function, r7_thread_confinement, r4_r5_listener, r6_frames]
